@@ -6,7 +6,7 @@ import json, os, re
 HERE = os.path.dirname(os.path.abspath(__file__))
 VERIF = os.path.dirname(HERE)
 first = {}
-ROUNDS = ("r1", "r2", "r3", "r4", "r5", "r6")
+ROUNDS = ("r1", "r2", "r3", "r4", "r5", "r6", "r7")
 for rnd in ROUNDS:
     fn = "seeded_round%s.log" % rnd[1:]
     path = os.path.join(VERIF, "notes", fn)
